@@ -273,8 +273,11 @@ def write_evidence(ctx, n_viol, n_known):
         "wall_s": round(time.time() - ctx.t0, 2),
         "violations": n_viol,
     }
-    os.makedirs(os.path.join(VERIF, "evidence"), exist_ok=True)
-    path = os.path.join(VERIF, "evidence", ctx.pid + ".json")
+    # evidence/ only ever describes runs against /repo itself; runs against a scratch copy (seeded changes, proposed
+    # fixes: XTL_VERIF_REPO) write to build/evidence-scratch/ instead
+    evdir = os.path.join(VERIF, "evidence") if os.path.realpath(REPO) == "/repo" else os.path.join(BUILD, "evidence-scratch")
+    os.makedirs(evdir, exist_ok=True)
+    path = os.path.join(evdir, ctx.pid + ".json")
     tmp = path + ".tmp"
     with open(tmp, "w") as f:
         json.dump(ev, f, indent=1, sort_keys=True)
